@@ -33,7 +33,7 @@ SEEDS = [0, 1, 2, 7, 2**32 - 1, 2**32, 12345678901234567890, 3141592653]
 @st.composite
 def descriptor(draw):
     kind = draw(st.sampled_from(["ft", "ft_sh", "vk", "fried"]))
-    d = {"kind": kind, "seed": draw(st.sampled_from(SEEDS)), "r0": draw(st.sampled_from([0.1, 0.16, 0.5])), "L0": draw(st.sampled_from([10.0, 25.0, 100.0])),
+    d = {"kind": kind, "seed": draw(st.sampled_from(SEEDS)), "seed_type": draw(st.sampled_from(["int", "int", "np_int64", "np_uint64", "np_intc"])), "r0": draw(st.sampled_from([0.1, 0.16, 0.5])), "L0": draw(st.sampled_from([10.0, 25.0, 100.0])),
          "ps": draw(st.sampled_from([0.05, 0.1, 0.25]))}
     if kind in ("ft", "ft_sh"):
         d["N"] = draw(st.sampled_from([2, 4, 8, 16]))
@@ -48,7 +48,19 @@ def descriptor(draw):
 
 
 def key(d):
-    return tuple(sorted(d.items()))
+    # the same seed value must give the same screen whatever integer type carries it
+    return tuple(sorted((k, v) for k, v in d.items() if k != "seed_type"))
+
+
+def seed_obj(d):
+    t, v = d.get("seed_type", "int"), d["seed"]
+    if t == "np_int64" and v < 2**63:
+        return np.int64(v)
+    if t == "np_uint64" and v < 2**64:
+        return np.uint64(v)
+    if t == "np_intc" and v < 2**31:
+        return np.intc(v)
+    return int(v)
 
 
 class Model:
@@ -88,21 +100,21 @@ class Model:
         with warnings.catch_warnings():
             warnings.simplefilter("ignore")
             if d["kind"] == "ft":
-                obj, arr = None, ps_.ft_phase_screen(d["r0"], d["N"], d["ps"], d["L0"], d["l0"], seed=d["seed"])
+                obj, arr = None, ps_.ft_phase_screen(d["r0"], d["N"], d["ps"], d["L0"], d["l0"], seed=seed_obj(d))
             elif d["kind"] == "ft_sh":
-                obj, arr = None, ps_.ft_sh_phase_screen(d["r0"], d["N"], d["ps"], d["L0"], d["l0"], seed=d["seed"])
+                obj, arr = None, ps_.ft_sh_phase_screen(d["r0"], d["N"], d["ps"], d["L0"], d["l0"], seed=seed_obj(d))
             elif d["kind"] == "vk":
-                obj = ips.PhaseScreenVonKarman(d["N"], d["ps"], d["r0"], d["L0"], random_seed=d["seed"], n_columns=d["ncol"])
+                obj = ips.PhaseScreenVonKarman(d["N"], d["ps"], d["r0"], d["L0"], random_seed=seed_obj(d), n_columns=d["ncol"])
                 arr = obj.scrn
             else:
-                obj = ips.PhaseScreenKolmogorov(d["N"], d["ps"], d["r0"], d["L0"], random_seed=d["seed"], stencil_length_factor=d["factor"])
+                obj = ips.PhaseScreenKolmogorov(d["N"], d["ps"], d["r0"], d["L0"], random_seed=seed_obj(d), stencil_length_factor=d["factor"])
                 arr = obj.scrn
         self.ctx.require(self._global() == g0, "creating a seeded %s screen changed numpy's global random state" % d["kind"])
         self.ctx.require(bool(np.all(np.isfinite(arr))), "seeded screen not finite")
         # different seeds give different screens
         for k2, traj in self.ref.items():
             d2 = dict(k2)
-            if d2["seed"] != d["seed"] and {kk: v for kk, v in d2.items() if kk != "seed"} == {kk: v for kk, v in d.items() if kk != "seed"}:
+            if d2["seed"] != d["seed"] and {kk: v for kk, v in d2.items() if kk != "seed"} == {kk: v for kk, v in d.items() if kk not in ("seed", "seed_type")}:
                 self.ctx.require(not np.array_equal(traj[0], arr), "seeds %r and %r give the same %s screen" % (d2["seed"], d["seed"], d["kind"]))
                 self.flags.add("different_seeds_compared")
         had = key(d) in self.ref
